@@ -16,8 +16,19 @@ pub fn server_addr(i: u16) -> SocketAddr {
     SocketAddr::new(IpAddr::V4(Ipv4Addr::new(10, 0, 0, 1)), 5000 + i)
 }
 
+/// Client addresses: i and i+1 share the IP (odd i) or the port (even i), like peers behind one NAT or
+/// peers that picked the same source port: an address is only identified by the (IP, port) pair.
 pub fn client_addr(i: u16) -> SocketAddr {
-    SocketAddr::new(IpAddr::V4(Ipv4Addr::new(192, 168, 1, 10 + i as u8)), 40_000 + i)
+    SocketAddr::new(IpAddr::V4(Ipv4Addr::new(192, 168, 1, 10 + ((i + 1) / 2) as u8)), 40_000 + i / 2 + 1)
+}
+
+/// the same numbering with IPv6 addresses
+pub fn client_addr6(i: u16) -> SocketAddr {
+    SocketAddr::new(IpAddr::V6(std::net::Ipv6Addr::new(0x2001, 0xdb8, 0, 0, 0, 0x100, 0, 10 + (i + 1) / 2)), 40_000 + i / 2 + 1)
+}
+
+pub fn server_addr6(i: u16) -> SocketAddr {
+    SocketAddr::new(IpAddr::V6(std::net::Ipv6Addr::new(0x2001, 0xdb8, 0, 0, 0, 0, 0, 1)), 5000 + i)
 }
 
 pub fn new_server(max_clients: usize, public: Vec<SocketAddr>, now: Duration) -> NetcodeServer {
